@@ -561,3 +561,114 @@ twin('C01-twin-positional-reorder', 'C01',
        "    result = re_order_blob(\n        results_blob=result,\n"
        "        query_path=query_h5ad_path)\n",
        "    result = re_order_blob(result, query_h5ad_path)\n")])
+
+
+# ----------------------------------------------------------------------
+# C17
+# ----------------------------------------------------------------------
+mutant('C17-election-gets-stored-tree', 'C17',
+       'the election is run on the stored (unreduced) tree',
+       [(P+'cli/from_specified_markers.py',
+         "        marker_gene_cache_path=query_marker_tmp,\n"
+         "        taxonomy_tree=taxonomy_tree,\n"
+         "        n_processors=type_assignment_config['n_processors'],",
+         "        marker_gene_cache_path=query_marker_tmp,\n"
+         "        taxonomy_tree=tree_for_metadata,\n"
+         "        n_processors=type_assignment_config['n_processors'],")],
+       'R-PROV/latest-tree', 'run_type_assignment_on_h5ad')
+mutant('C17-markers-before-flatten', 'C17',
+       'the marker report is computed from a tree captured before '
+       'flattening',
+       [(P+'cli/from_specified_markers.py',
+         "    if config['flatten']:\n\n"
+         "        taxonomy_tree = taxonomy_tree.flatten()\n",
+         "    tree_before_flatten = taxonomy_tree\n"
+         "    if config['flatten']:\n\n"
+         "        taxonomy_tree = taxonomy_tree.flatten()\n"),
+        (P+'cli/from_specified_markers.py',
+         "        marker_cache_path=query_marker_tmp,\n"
+         "        taxonomy_tree=taxonomy_tree)\n",
+         "        marker_cache_path=query_marker_tmp,\n"
+         "        taxonomy_tree=tree_before_flatten)\n")],
+       'R-PROV/latest-tree', 'serialize_markers')
+mutant('C17-drop-guard-removed', 'C17',
+       'the membership guard before drop_level in _run_mapping is removed',
+       [(P+'cli/from_specified_markers.py',
+         "        if config['drop_level'] in taxonomy_tree.hierarchy:\n"
+         "            taxonomy_tree = taxonomy_tree.drop_level("
+         "config['drop_level'])\n",
+         "        taxonomy_tree = taxonomy_tree.drop_level("
+         "config['drop_level'])\n")],
+       'R-GUARD/drop-level-membership', '_run_mapping')
+mutant('C17-drop-guard-removed-refmarkers', 'C17',
+       'the reference-marker CLI drops the level unconditionally (the '
+       'defect fixed by the F4 commit)',
+       [(P+'cli/reference_markers.py',
+         "                if self.args['drop_level'] in "
+         "taxonomy_tree.hierarchy:\n"
+         "                    taxonomy_tree = taxonomy_tree.drop_level(\n"
+         "                        self.args['drop_level'])\n",
+         "                taxonomy_tree = taxonomy_tree.drop_level(\n"
+         "                    self.args['drop_level'])\n")],
+       'R-GUARD/drop-level-membership', 'reference_markers')
+mutant('C17-guard-on-other-tree', 'C17',
+       'membership is tested on the stored tree, the drop applied to '
+       'another',
+       [(P+'cli/from_specified_markers.py',
+         "        if config['drop_level'] in taxonomy_tree.hierarchy:\n",
+         "        if config['drop_level'] in tree_for_metadata.hierarchy:"
+         "\n")],
+       'R-GUARD/drop-level-membership', '_run_mapping')
+mutant('C17-flatten-keeps-marker-groups', 'C17',
+       'the tree is flattened but the marker table keeps its groups',
+       [(P+'cli/from_specified_markers.py',
+         "        marker_lookup = {'None': all_markers}\n", "")],
+       'R-PROV/flatten-markers')
+mutant('C17-flatten-unsorted-subset', 'C17',
+       'under flatten only the root list is used',
+       [(P+'cli/from_specified_markers.py',
+         "        marker_lookup = {'None': all_markers}\n",
+         "        marker_lookup = {'None': marker_lookup['None']}\n")],
+       'R-PROV/flatten-markers')
+mutant('C17-leaf-means-other-tree', 'C17',
+       'leaf means are read with a freshly loaded (unreduced) tree',
+       [(P+'type_assignment/election.py',
+         "    leaf_node_matrix = get_leaf_means(\n"
+         "        taxonomy_tree=taxonomy_tree,\n",
+         "    from cell_type_mapper.taxonomy.taxonomy_tree import "
+         "TaxonomyTree\n"
+         "    leaf_node_matrix = get_leaf_means(\n"
+         "        taxonomy_tree=TaxonomyTree.from_precomputed_stats(\n"
+         "            precomputed_stats_path),\n")],
+       'R-SAMEVAL/stats-through-tree')
+
+twin('C17-twin-guard-and', 'C17',
+     'guard written as a conjunction',
+     [(P+'cli/from_specified_markers.py',
+       "    if config['drop_level'] is not None:\n"
+       "        if config['drop_level'] in taxonomy_tree.hierarchy:\n"
+       "            taxonomy_tree = taxonomy_tree.drop_level("
+       "config['drop_level'])\n",
+       "    if config['drop_level'] is not None \\\n"
+       "            and config['drop_level'] in taxonomy_tree.hierarchy:\n"
+       "        taxonomy_tree = taxonomy_tree.drop_level("
+       "config['drop_level'])\n")])
+twin('C17-twin-guard-negated', 'C17',
+     'guard written as `not in ...: pass else: drop`',
+     [(P+'cli/reference_markers.py',
+       "                if self.args['drop_level'] in "
+       "taxonomy_tree.hierarchy:\n"
+       "                    taxonomy_tree = taxonomy_tree.drop_level(\n"
+       "                        self.args['drop_level'])\n",
+       "                if self.args['drop_level'] not in "
+       "taxonomy_tree.hierarchy:\n"
+       "                    pass\n"
+       "                else:\n"
+       "                    taxonomy_tree = taxonomy_tree.drop_level(\n"
+       "                        self.args['drop_level'])\n")])
+twin('C17-twin-sorted-call', 'C17',
+     'flattened marker list built with sorted(...)',
+     [(P+'cli/from_specified_markers.py',
+       "        all_markers = list(all_markers)\n"
+       "        all_markers.sort()\n",
+       "        all_markers = sorted(all_markers)\n")])
